@@ -24,6 +24,7 @@ RULE = (
     "additional yield point (sys.monitoring PY_START in the scheduled threads; the repository is not modified) and schedules of "
     "(thread, run length) pairs - pre-emption between autograd's own calls, e.g. between an operator wrapper storing its arguments and "
     "the trace reading them. Non-trivial there = a switch away from a thread stopped inside autograd's code."
+    ' Thread programs added later: holomorphic, complex_mid, const_graph, shared_pushforward / shared_pullback; shared:<kind> and shared_fine:<kind> tests run every shared-object program against itself.'
 )
 
 KINDS = ["grad1", "nested", "fwd_rev", "rev_fwd", "hvp", "jacobian", "nested3", "nested_jvp", "nested_twice", "two_calls",
